@@ -26,7 +26,7 @@ def table():
 def main():
     path = os.path.join(ROOT, "DESIGN.md")
     s = open(path).read()
-    new = re.sub(r"(<!-- SEEDED-TABLE-BEGIN -->\n).*?(\n<!-- SEEDED-TABLE-END -->)", lambda mo: mo.group(1) + table() + mo.group(2), s, flags=re.S)
+    new = re.sub(r"(<!-- SEEDED-TABLE-BEGIN -->\n).*?(<!-- SEEDED-TABLE-END -->)", lambda mo: mo.group(1) + table() + "\n" + mo.group(2), s, flags=re.S)
     if "--print" in sys.argv:
         print(table())
     else:
